@@ -15,18 +15,27 @@ trap 'rm -rf "$SCRATCH"' EXIT
 ID=${1:?property id or "replay"}
 ARG=${2:-quick}
 
+# VERIF_REPO (default /repo): the tree to check. Anything else (a snapshot for a long background
+# run) is checked through a scratch copy of the checker module whose replace directive points there.
+REPO=${VERIF_REPO:-/repo}
+MC="$HERE/mc"
+if [ "$REPO" != /repo ]; then
+  cp -r "$HERE/mc" "$SCRATCH/mc" && MC="$SCRATCH/mc"
+  (cd "$MC" && go mod edit -replace "larking.io=$REPO") || { echo "BUILD-FAILED (cannot point the checker at $REPO)"; exit 2; }
+fi
+
 build_plain() {
-  (cd "$HERE/mc" && go build -tags verif -o "$SCRATCH/verif" ./cmd/verif) >"$SCRATCH/build.log" 2>&1 || {
+  (cd "$MC" && go build -tags verif -o "$SCRATCH/verif" ./cmd/verif) >"$SCRATCH/build.log" 2>&1 || {
     cat "$SCRATCH/build.log"; echo "BUILD-FAILED (plain) for $ID"; exit 2; }
 }
 build_sched() {
-  (cd "$HERE/mc" && go run ./cmd/overlaygen -repo /repo -out "$SCRATCH/overlay" >"$SCRATCH/overlay.log" 2>&1 &&
+  (cd "$MC" && go run ./cmd/overlaygen -repo "$REPO" -out "$SCRATCH/overlay" >"$SCRATCH/overlay.log" 2>&1 &&
     go build -tags verif -overlay "$SCRATCH/overlay/overlay.json" -ldflags "-X main.schedOverlay=1" -o "$SCRATCH/verif-sched" ./cmd/verif) >"$SCRATCH/build.log" 2>&1 || {
     cat "$SCRATCH/overlay.log" "$SCRATCH/build.log" 2>/dev/null; echo "BUILD-FAILED (sched overlay) for $ID"; exit 2; }
 }
 
 build_race() {
-  (cd "$HERE/mc" && go build -race -tags verif -o "$SCRATCH/verif-race" ./cmd/verif) >"$SCRATCH/build-race.log" 2>&1 || {
+  (cd "$MC" && go build -race -tags verif -o "$SCRATCH/verif-race" ./cmd/verif) >"$SCRATCH/build-race.log" 2>&1 || {
     cat "$SCRATCH/build-race.log"; echo "BUILD-FAILED (race) for $ID"; exit 2; }
   export VERIF_RACE_BIN="$SCRATCH/verif-race"
 }
